@@ -57,7 +57,9 @@ def extract(config, repo=REPO, crate="hypercore", target=None, out=None):
         "CARGO_NET_OFFLINE": "true",
     })
     env.pop("RUSTFLAGS", None)
-    lock = open(os.path.join(CACHE, "extract.lock"), "w")
+    # one cargo invocation per target directory at a time (the driver is skipped on a warm
+    # fingerprint, so fingerprints are deleted under the lock)
+    lock = open(os.path.join(CACHE, "extract-%s.lock" % os.path.basename(target.rstrip("/"))), "w")
     fcntl.flock(lock, fcntl.LOCK_EX)
     try:
         fp = os.path.join(target, "debug", ".fingerprint")
